@@ -68,7 +68,7 @@ func init() {
 	}
 	plans["C17"] = plan{
 		Level: "exploration",
-		Parts: []part{{"D", "api2", 12000, 2, 250}, {"D", "api", 12000, 2, 250}, {"D", "composed", 8000, 3, 250}, {"A", "c17a", 2400, 3, 250}},
+		Parts: []part{{"D", "api2", 8000, 2, 250}, {"D", "api", 8000, 2, 250}, {"D", "composed", 5000, 3, 250}, {"A", "c17a", 1600, 3, 200}},
 		Rule: "world D: the real ReloadableOrchestrator with recording downstream orchestrators; 1-2 SIGHUPs (accepted or rejected by the scripted initiateReload) delivered through " +
 			"simsignal at arbitrary scheduling points while 2-6 connections register, use and close their sinks. Level api2 = the small case of the property (two connections, one " +
 			"reload, all at one instant; the distinct-interleaving count is reported to show saturation); level api = more connections/reloads with unique client numbers; level composed = " +
@@ -84,7 +84,7 @@ func init() {
 	}
 	plans["C01"] = plan{
 		Level: "exploration",
-		Parts: []part{{"A", "c01", 3600, 5, 250}, {"A", "nofault", 500, 1, 250}, {"A", "limits", 900, 1, 250}},
+		Parts: []part{{"A", "c01", 2800, 5, 200}, {"A", "nofault", 300, 1, 200}, {"A", "limits", 600, 1, 200}},
 		Rule: "world A: each run = one seeded scenario (1-4 syslog clients with bursts, pauses around the flush interval and records split across writes; 1-5 key tuples; knobs for batch size, memory window, chunk limits, message mode, timeouts; a script of upstream behaviour per connection attempt: refuse / connect timeout / reset after k messages / reset mid-stream / never ACK / late ACK / ACK of unknown id / accept but never read / close; graceful stop+restart generations on the same queue directory; SIGUSR1; a fault-free tail) executed under one seeded goroutine schedule. " +
 			"Oracle C01: every record whose final newline the agent read and that the marker filter does not drop is, after the final stop, inside a message the upstream acknowledged or inside a chunk file of the queue directory; every delivered event equals the reference event of its own record (exceptions: the unfinished last line of a connection, exactly as FlushAll hands it over); no event without a sent record; dropped_chunks_total stays 0 unless the profile configures reachable limits, where loss is allowed only when counted; bounded liveness after the upstream became healthy. Non-trivial: at least one fault fired and oracle obligations were evaluated; distinct = (scenario hash, context-switch hash).",
 		Real: []string{"the whole agent as run.Run assembles it: run.Loader/Reloader, sysloginput, tcplistener, syslogparser, transforms, byKeySet orchestrator, pipelines, fluentdforward serializer/chunk maker/client, baseoutput, hybridbuffer, util/files.go, metrics", "gotils channels, promext", "fluentlib forwardprotocol + msgpack (decoding on the fake server side)"},
@@ -97,7 +97,7 @@ func init() {
 	}
 	plans["C05"] = plan{
 		Level: "exploration",
-		Parts: []part{{"A", "c05", 4500, 1, 250}},
+		Parts: []part{{"A", "c05", 3200, 1, 200}},
 		Rule: "world A: each run = one seeded scenario (1-4 syslog clients with bursts, pauses around the flush interval and records split across writes; 1-5 key tuples; knobs for batch size, memory window, chunk limits, message mode, timeouts; a script of upstream behaviour per connection attempt: refuse / connect timeout / reset after k messages / reset mid-stream / never ACK / late ACK / ACK of unknown id / accept but never read / close; graceful stop+restart generations on the same queue directory; SIGUSR1; a fault-free tail) executed under one seeded goroutine schedule. " +
 			"Profile c05 shares key sets between connections, scales batch and chunk limits down and forces spill. Oracle C05: per (connection, key set) the first deliveries appear upstream in arrival order; per upstream connection chunk ids never decrease and no chunk is transmitted while an older chunk of the same pipeline, seen by the upstream before and not acknowledged, has not been retransmitted on that connection. Non-trivial: at least one fault fired and oracle obligations were evaluated; distinct = (scenario hash, context-switch hash).",
 		Real: []string{"the whole agent as run.Run assembles it: run.Loader/Reloader, sysloginput, tcplistener, syslogparser, transforms, byKeySet orchestrator, pipelines, fluentdforward serializer/chunk maker/client, baseoutput, hybridbuffer, util/files.go, metrics", "gotils channels, promext", "fluentlib forwardprotocol + msgpack (decoding on the fake server side)"},
@@ -110,7 +110,7 @@ func init() {
 	}
 	plans["C06"] = plan{
 		Level: "exploration",
-		Parts: []part{{"A", "c06", 4200, 1, 250}},
+		Parts: []part{{"A", "c06", 3200, 1, 200}},
 		Rule: "world A: each run = one seeded scenario (1-4 syslog clients with bursts, pauses around the flush interval and records split across writes; 1-5 key tuples; knobs for batch size, memory window, chunk limits, message mode, timeouts; a script of upstream behaviour per connection attempt: refuse / connect timeout / reset after k messages / reset mid-stream / never ACK / late ACK / ACK of unknown id / accept but never read / close; graceful stop+restart generations on the same queue directory; SIGUSR1; a fault-free tail) executed under one seeded goroutine schedule. " +
 			"Profile c06 draws key values from an adversarial alphabet (empty, a, b, ab, bc, comma, 'a,b', slash, NUL, dots, long) with colliding pairs such as ('ab','c')/('a','bc') and ('a,b','c')/('a','b,c') in most runs, 1-3 key fields, templates with substrings, restarts and never-ACK so that recovery from .id files runs. Oracle C06: every delivered or queued chunk carries records of one key tuple only and the tag the template gives for that tuple (independent expander); queue directories and key tuples are in bijection judged from chunk contents; every queue file found at the last start is transmitted again during the healthy phase without new traffic for its key set. Non-trivial: at least one fault fired and oracle obligations were evaluated; distinct = (scenario hash, context-switch hash).",
 		Real: []string{"the whole agent as run.Run assembles it: run.Loader/Reloader, sysloginput, tcplistener, syslogparser, transforms, byKeySet orchestrator, pipelines, fluentdforward serializer/chunk maker/client, baseoutput, hybridbuffer, util/files.go, metrics", "gotils channels, promext", "fluentlib forwardprotocol + msgpack (decoding on the fake server side)"},
@@ -123,7 +123,7 @@ func init() {
 	}
 	plans["C07"] = plan{
 		Level: "exploration",
-		Parts: []part{{"A", "c07", 3600, 6, 250}, {"A", "c07big", 60, 1, 60}},
+		Parts: []part{{"A", "c07", 2800, 6, 200}, {"A", "c07big", 48, 1, 48}},
 		Rule: "world A: each run = one seeded scenario (1-4 syslog clients with bursts, pauses around the flush interval and records split across writes; 1-5 key tuples; knobs for batch size, memory window, chunk limits, message mode, timeouts; a script of upstream behaviour per connection attempt: refuse / connect timeout / reset after k messages / reset mid-stream / never ACK / late ACK / ACK of unknown id / accept but never read / close; graceful stop+restart generations on the same queue directory; SIGUSR1; a fault-free tail) executed under one seeded goroutine schedule. " +
 			"Profile c07 interleaves well-formed sentinel records with hostile material produced by grammar mutation (PRI variants, NIL/truncated/oversize timestamps, missing tokens, one-byte tokens, fields and lines beyond every limit, invalid UTF-8 and NUL in header fields, bare newlines, binary, records cut off without newline), then opens a clean connection; c07big repeats it at the shipped 1 MiB limits. Oracle C07: no panic or fatal exit in any goroutine; sentinels that are records of their own per the reference framer are delivered and equal the reference (with the lines the framer attaches by design); the clean connection's records are delivered within the bound. Non-trivial: at least one fault fired and oracle obligations were evaluated; distinct = (scenario hash, context-switch hash).",
 		Real: []string{"the whole agent as run.Run assembles it: run.Loader/Reloader, sysloginput, tcplistener, syslogparser, transforms, byKeySet orchestrator, pipelines, fluentdforward serializer/chunk maker/client, baseoutput, hybridbuffer, util/files.go, metrics", "gotils channels, promext", "fluentlib forwardprotocol + msgpack (decoding on the fake server side)"},
@@ -136,7 +136,7 @@ func init() {
 	}
 	plans["C11"] = plan{
 		Level: "exploration",
-		Parts: []part{{"A", "c11", 4500, 1, 250}},
+		Parts: []part{{"A", "c11", 3200, 1, 200}},
 		Rule: "world A: each run = one seeded scenario (1-4 syslog clients with bursts, pauses around the flush interval and records split across writes; 1-5 key tuples; knobs for batch size, memory window, chunk limits, message mode, timeouts; a script of upstream behaviour per connection attempt: refuse / connect timeout / reset after k messages / reset mid-stream / never ACK / late ACK / ACK of unknown id / accept but never read / close; graceful stop+restart generations on the same queue directory; SIGUSR1; a fault-free tail) executed under one seeded goroutine schedule. " +
 			"Profile c11 scales chunk limits down (200 B-64 KiB, 0-10 records), draws record sizes around them, all three Forward modes. Oracle C11 on every message the upstream received and every queue file of every stop: decodes completely, size option == number of events, compressed option fits the mode, tag == pipeline tag, file name == chunk id, a chunk id never names two different contents, no record in two different chunks, records of a connection in order inside and across chunks, size/record limits respected unless a single record, every read unfiltered record in some chunk. Non-trivial: at least one fault fired and oracle obligations were evaluated; distinct = (scenario hash, context-switch hash).",
 		Real: []string{"the whole agent as run.Run assembles it: run.Loader/Reloader, sysloginput, tcplistener, syslogparser, transforms, byKeySet orchestrator, pipelines, fluentdforward serializer/chunk maker/client, baseoutput, hybridbuffer, util/files.go, metrics", "gotils channels, promext", "fluentlib forwardprotocol + msgpack (decoding on the fake server side)"},
@@ -149,7 +149,7 @@ func init() {
 	}
 	plans["C12"] = plan{
 		Level: "exploration",
-		Parts: []part{{"A", "c12", 4500, 1, 250}},
+		Parts: []part{{"A", "c12", 3200, 1, 200}},
 		Rule: "world A: each run = one seeded scenario (1-4 syslog clients with bursts, pauses around the flush interval and records split across writes; 1-5 key tuples; knobs for batch size, memory window, chunk limits, message mode, timeouts; a script of upstream behaviour per connection attempt: refuse / connect timeout / reset after k messages / reset mid-stream / never ACK / late ACK / ACK of unknown id / accept but never read / close; graceful stop+restart generations on the same queue directory; SIGUSR1; a fault-free tail) executed under one seeded goroutine schedule. " +
 			"Profile c12 pools every record (pool threshold 32 B), lets the decision stream drive sync.Pool (newest / random / fresh object), mixes short, long, multi-line and marker-dropped records on shared pipelines. Oracle C12: every delivered event, first delivery and duplicates, equals the event of its own record on a fresh single-record pipeline (multi-line records: of a prefix of their lines when a flush split them); no filtered record delivered; no event without a sent record. Non-trivial: at least one fault fired and oracle obligations were evaluated; distinct = (scenario hash, context-switch hash).",
 		Real: []string{"the whole agent as run.Run assembles it: run.Loader/Reloader, sysloginput, tcplistener, syslogparser, transforms, byKeySet orchestrator, pipelines, fluentdforward serializer/chunk maker/client, baseoutput, hybridbuffer, util/files.go, metrics", "gotils channels, promext", "fluentlib forwardprotocol + msgpack (decoding on the fake server side)"},
@@ -162,7 +162,7 @@ func init() {
 	}
 	plans["C18"] = plan{
 		Level: "exploration",
-		Parts: []part{{"A", "c18", 3200, 3, 250}, {"B", "stop", 30000, 1, 0}},
+		Parts: []part{{"A", "c18", 2800, 3, 200}, {"B", "stop", 30000, 1, 0}},
 		Rule: "world A: each run = one seeded scenario (1-4 syslog clients with bursts, pauses around the flush interval and records split across writes; 1-5 key tuples; knobs for batch size, memory window, chunk limits, message mode, timeouts; a script of upstream behaviour per connection attempt: refuse / connect timeout / reset after k messages / reset mid-stream / never ACK / late ACK / ACK of unknown id / accept but never read / close; graceful stop+restart generations on the same queue directory; SIGUSR1; a fault-free tail) executed under one seeded goroutine schedule. " +
 			"Profile c18 stops the agent 2-4 times per run at seeded moments while the upstream refuses, resets, never ACKs, never reads or is late, with loads from idle to a full memory window. Oracle C18: every stop returns within 2*ICT + (BufferShutDownTimeout + 2*ICT) computed from the timeout values this run configured; no 'BUG: could not stop' line; after the last stop every read record is acknowledged, on disk or counted dropped; a shutdown that never returns ends the run as stuck. World B's stop profile adds the client-level bound (L2). Non-trivial: at least one fault fired and oracle obligations were evaluated; distinct = (scenario hash, context-switch hash).",
 		Real: []string{"the whole agent as run.Run assembles it: run.Loader/Reloader, sysloginput, tcplistener, syslogparser, transforms, byKeySet orchestrator, pipelines, fluentdforward serializer/chunk maker/client, baseoutput, hybridbuffer, util/files.go, metrics", "gotils channels, promext", "fluentlib forwardprotocol + msgpack (decoding on the fake server side)"},
@@ -175,7 +175,7 @@ func init() {
 	}
 	plans["C19"] = plan{
 		Level: "exploration",
-		Parts: []part{{"A", "c19", 4500, 1, 250}},
+		Parts: []part{{"A", "c19", 3200, 1, 200}},
 		Rule: "world A: each run = one seeded scenario (1-4 syslog clients with bursts, pauses around the flush interval and records split across writes; 1-5 key tuples; knobs for batch size, memory window, chunk limits, message mode, timeouts; a script of upstream behaviour per connection attempt: refuse / connect timeout / reset after k messages / reset mid-stream / never ACK / late ACK / ACK of unknown id / accept but never read / close; graceful stop+restart generations on the same queue directory; SIGUSR1; a fault-free tail) executed under one seeded goroutine schedule. " +
 			"Oracle C19 after every stop, from the loader's metric querier against harness-observed events: input passed+dropped == messages framed from what the agent read; pipeline passed+dropped == input passed; labelled{marker} == pipeline dropped == records read with the marker; buffer input == chunks created + chunk files recovered == consumed + leftover + dropped + pending; chunk files on disk == input - consumed (no drop); output acknowledged == buffer consumed <= ACKs the upstream wrote; attempts >= forwarded >= acknowledged. Non-trivial: at least one fault fired and oracle obligations were evaluated; distinct = (scenario hash, context-switch hash).",
 		Real: []string{"the whole agent as run.Run assembles it: run.Loader/Reloader, sysloginput, tcplistener, syslogparser, transforms, byKeySet orchestrator, pipelines, fluentdforward serializer/chunk maker/client, baseoutput, hybridbuffer, util/files.go, metrics", "gotils channels, promext", "fluentlib forwardprotocol + msgpack (decoding on the fake server side)"},
